@@ -325,6 +325,8 @@ def tree_files(nm):
         O + "/only2-" + N,
         D + "/" + N,
         D + "/" + O + "/" + N,
+        D + "/__/" + N,
+        D + "/__/" + S,
         D + "/.." + N,
         D + "/" + D + "../" + N,
     ]
@@ -574,6 +576,8 @@ def uri_shape(form, uri_t):
         feats.append("down-then-up" if first > 0 else "dotdot")
     if "\\" in rest.replace(ABS_BACK, ""):
         feats.append("backslash-sep")
+    if not uri_t.isascii():
+        feats.append("look-alike-chars")
     if not lead:
         lc = "none"
     elif set(lead) == {"/"}:
@@ -783,7 +787,47 @@ def diff_snapshot(w, cfg):
 
 
 MODNAME = "mc.props.c09"
-CHAIN = "same-lookup"  # cases carrying this key are replayed, in order, on ONE lookup (see replay)
+CHAIN = "same-lookup"  # cases carrying this key are replayed, in order, in ONE process on ONE lookup (see replay)
+
+# --------------------------------------------------------------------------
+# process isolation.  The worker itself never executes a lookup: every chunk
+# of the grid, every batch of two-call histories and every re-execution of a
+# failing case runs in a child forked from the (clean) worker, so state that
+# the library keeps per process (module-level tables, registries) has exactly
+# the history of that chunk / batch / sequence - and a reported case replays.
+
+
+def fork_call(fn, *args):
+    import pickle
+    import traceback
+
+    r, wfd = os.pipe()
+    pid = os.fork()
+    if pid == 0:
+        code = 0
+        try:
+            os.close(r)
+            try:
+                res = ("ok", fn(*args))
+            except BaseException:  # noqa
+                res = ("err", traceback.format_exc()[-3000:])
+            with os.fdopen(wfd, "wb") as f:
+                f.write(pickle.dumps(res))
+        except BaseException:  # noqa
+            code = 1
+        finally:
+            os._exit(code)
+    os.close(wfd)
+    with os.fdopen(r, "rb") as f:
+        data = f.read()
+    os.waitpid(pid, 0)
+    if not data:
+        raise RuntimeError("child process died without a result")
+    res = pickle.loads(data)
+    if res[0] == "err":
+        raise RuntimeError("child process failed:\n" + res[1])
+    return res[1]
+
 
 # two-call histories on a fresh lookup.  rows: (forms of the second URI, config ids, k1, k2, keq, exists_only)
 #   u1 ranges over the URIs of <=k1 segments (spellings PAIR_SP1) that resolve outside every root;
@@ -806,7 +850,75 @@ PAIR_PLANS = {
         (TAG_FORMS, [_AO, _TM], 3, 2, 2, True),
     ],
 }
+# alias histories.  rows: (forms of the traversal URI, config ids, n, mix_n)
+#   t ranges over the URIs of <=n segments (grid spellings: 5 separator patterns, every separator mix for
+#   <=mix_n segments, 6 prefixes; alphabet + ALIAS_EXTRA) that resolve outside every root onto an existing
+#   file; h over every URI of the same universe that does NOT resolve outside and whose identifier-sanitised
+#   spelling (every non-word character replaced by '_') equals that of t as the form passes it on.
+ALIAS_EXTRA = ["__"]
+ALIAS_PLANS = {
+    "quick": [
+        (["G"], [_AO], 3, 2),
+        (["H"] + TAG_FORMS, [_AO], 2, 2),
+        (["G"], [_TM], 2, 2),
+    ],
+    "thorough": [
+        (["G"], [_AO], 3, 3),
+        (["H", "I"], [_AO, _TM], 3, 2),
+        (["G", "H"] + TAG_FORMS, ALL_CFG, 2, 2),
+    ],
+}
 PAIR_SHARDS = {"quick": 16, "thorough": 64}
+
+# look-alike family of the grid.  rows: (forms, depths, config ids, max n)
+UNI_DD = ["‥", "．．", "․․", "﹒﹒", ".．", "．."]
+UNI_DOT = [".", "．"]
+UNI_SEP = ["/", "\\", "／", "＼", "∕", "⧸", "﹨"]
+UNI_PLANS = {
+    "quick": [
+        (["G"], [0], [_AO, _TM], 3),
+        (["I"], [0, 1], [_AO], 3),
+        (["H"] + OTHER_TAGS, [0, 1], [_AO], 2),
+    ],
+    "thorough": [
+        (["G"], [0], [_AO], 4),
+        (["G", "H"], [0], ALL_CFG, 3),
+        (TAG_FORMS, [0, 1, 2], [_AO, _TM], 3),
+    ],
+}
+
+
+def fullwidth(name):
+    return "".join(chr(ord(c) + 0xFEE0) if c.isalnum() and ord(c) < 128 else c for c in name)
+
+
+def gen_uni(tier, seed, shard=0, nshards=1):
+    """URIs whose path syntax is spelled with compatibility / look-alike
+    characters: '..' as U+2025, U+FF0E U+FF0E, U+2024 U+2024, U+FE52 U+FE52 or
+    half-ASCII mixtures, '.' as U+FF0E, separators U+FF0F U+FF3C U+2215 U+29F8
+    U+FE68 (and the ASCII ones), a full-width spelling of the file name; at
+    least one non-ASCII character.  -> (uri, n)"""
+    nm = names(seed)
+    maxn = max(r[3] for r in UNI_PLANS[tier])
+    base = [nm["N"], nm["D"], nm["S"], nm["O"], "\0DD", "\0D", fullwidth(nm["N"])]
+    seen = set()
+    for n in range(1, maxn + 1):
+        for segs in itertools.product(base, repeat=n):
+            has_dd = "\0DD" in segs
+            has_d = "\0D" in segs
+            for dd in ([".."] + UNI_DD) if has_dd else [".."]:
+                for dot in UNI_DOT if has_d else ["."]:
+                    real = [dd if x == "\0DD" else dot if x == "\0D" else x for x in segs]
+                    for sep in UNI_SEP:
+                        body = sep.join(real)
+                        for pre in ("", sep):
+                            u = pre + body
+                            if u.isascii() or u in seen:
+                                continue
+                            if zlib.crc32(u.encode("utf-8")) % nshards != shard:
+                                continue
+                            seen.add(u)
+                            yield u, n
 
 
 def plan(tier, seed):
@@ -832,8 +944,12 @@ def cases_for(tier, n, fam):
     """(config, form, depth) combinations a URI of n segments of that family is run on"""
     seen = set()
     out = []
-    for forms, depths, cfgs, max_pat, max_mix in PLANS[tier]:
-        if n > (max_mix if fam == "mix" else max_pat):
+    if fam == "uni":
+        rows = [(f, d, c, mx) for f, d, c, mx in UNI_PLANS[tier]]
+    else:
+        rows = [(f, d, c, (mm if fam == "mix" else mp)) for f, d, c, mp, mm in PLANS[tier]]
+    for forms, depths, cfgs, mx in rows:
+        if n > mx:
             continue
         for ci in cfgs:
             for f in forms:
@@ -845,7 +961,7 @@ def cases_for(tier, n, fam):
     return out
 
 
-CHUNK = 300
+CHUNK = {"quick": 300, "thorough": 900}
 
 
 def run_job(job):
@@ -884,8 +1000,12 @@ class _Viols:
             st.sigcount[sig] = self.count[sig]
 
 
-def mkcase(cfg, form, depth, uri_t, seed):
-    return {"cfg": cfg, "form": form, "depth": depth, "uri": uri_t, "seed": seed}
+def mkcase(cfg, form, depth, uri_t, seed, lk=None):
+    """lk: which lookup object of the process serves the call (cases with the same tag share one)"""
+    c = {"cfg": cfg, "form": form, "depth": depth, "uri": uri_t, "seed": seed}
+    if lk is not None:
+        c["lk"] = lk
+    return c
 
 
 def _sigs(viols):
@@ -894,14 +1014,13 @@ def _sigs(viols):
 
 def prelude_footprint(w, ci, h):
     must = ref_class(concrete(h["uri"], w.T), h["form"], h["depth"], w.nm["D"], w.rootnames(CONFIGS[ci]))[0]
-    return " | after an earlier %s of %s on the same lookup" % (
+    return " | after an earlier %s of %s in the same process" % (
         "lookup" if h["form"] in "GH" else "tag lookup",
-        "a URI resolving outside the roots" if must else "another URI")
+        "a URI resolving outside the roots" if must else "a URI not resolving outside the roots")
 
 
-def _snap_count(st):
-    d = st.extra.get("violations_by_worker_signature", {})
-    return sum(v for k, v in d.items() if k.startswith("snapshot:"))
+def _snap_sigs(viols):
+    return any(v[0].startswith("snapshot:") for v in viols)
 
 
 def base_of(sig):
@@ -912,40 +1031,44 @@ def base_of(sig):
     return head + (": " + cls if cls else "")
 
 
-RESOLVE_PER_SIG = 4  # per job and signature: how many failing cases are re-executed on a pristine tree
+RESOLVE_PER_SIG = 4  # per job and signature: how many failing cases are re-executed in fresh processes
 SEARCH_MAX = 320
 
 
-def _pristine_run(w, ci, seq):
-    """Run the sequence of cases on ONE fresh lookup over a pristine copy of the
-    tree (exactly what replay() does).  -> signatures of the last step"""
+def _seq_child(w, ci, seq):
+    """(in a fresh child) the sequence of cases on ONE fresh lookup over the
+    pristine twin tree - exactly what replay() does.  -> signatures of the last step"""
     rw = w.rw
-    if rw is None:
-        rw = w.rw = World(w.seed)
     cfg = CONFIGS[ci]
     os.chdir(rw.T)
-    try:
-        rw.clear_mods()
-        lk = rw.new_lookup(ci)
-        viols = []
-        for c in seq:
-            _, viols = run_case(rw, ci, c["form"], c["depth"], c["uri"], lk=lk)
-        sigs = _sigs(viols)
-        d = diff_snapshot(rw, cfg)
-        if d is not None:
-            sigs.add("snapshot: %s roots=%s" % (d[0], cfg["roots"]))
-            rw.rebuild()
-        return sigs
-    finally:
-        os.chdir(w.T)
+    rw.clear_mods()
+    lks = {}
+    viols = []
+    for c in seq:
+        lk = lks.get(c.get("lk"))
+        if lk is None:
+            lk = lks[c.get("lk")] = rw.new_lookup(ci)
+        _, viols = run_case(rw, ci, c["form"], c["depth"], c["uri"], lk=lk)
+    sigs = _sigs(viols)
+    d = diff_snapshot(rw, cfg)
+    if d is not None:
+        sigs.add("snapshot: %s roots=%s" % (d[0], cfg["roots"]))
+        rw.rebuild()
+    return sigs
+
+
+def _pristine_run(w, ci, seq):
+    if w.rw is None:
+        w.rw = World(w.seed)
+    return fork_call(_seq_child, w, ci, seq)
 
 
 def resolve_history(w, st, ci, case, viols, history, budget):
-    """A case failed on a lookup / tree that had served `history` (list of case
-    dicts, oldest first) before.  Decide by re-execution on a pristine tree and
-    a fresh lookup whether it fails alone or needs an earlier call, so that
-    every reported case replays.  At most RESOLVE_PER_SIG cases per signature
-    and job are re-executed; the others are only counted.
+    """A case failed in a child that had executed `history` (list of case dicts,
+    oldest first) before.  Decide by re-execution in fresh processes (pristine
+    tree, fresh lookup) whether it fails alone or needs an earlier call, so
+    that every reported case replays.  At most RESOLVE_PER_SIG cases per
+    signature and job are re-executed; the others are only counted.
     -> list of (case', sig', oracle, expected, observed)"""
     cnt = st.extra.setdefault("violations_by_worker_signature", {})
     todo = []
@@ -971,12 +1094,18 @@ def resolve_history(w, st, ci, case, viols, history, budget):
     rx["order_dependent_failures_resolved"] = rx.get("order_dependent_failures_resolved", 0) + len(dep)
     need = {v[0] for v in dep}
     found = {}
-    # candidates: nearest first, but URIs resolving outside the roots before the others
+    # candidates: the call just before, then URIs resolving outside the roots (nearest first), then the others
     roots = w.rootnames(CONFIGS[ci])
     cands = [h for h in reversed(history) if not (h["uri"] == case["uri"] and h["form"] == case["form"] and h["depth"] == case["depth"])]
-    outside = [h for h in cands if ref_class(concrete(h["uri"], w.T), h["form"], h["depth"], w.nm["D"], roots)[0]]
-    rest = [h for h in cands if h not in outside]
-    for h in (outside + rest)[:SEARCH_MAX]:
+    first = cands[:1]
+    tail = cands[1:]
+    flags = [ref_class(concrete(h["uri"], w.T), h["form"], h["depth"], w.nm["D"], roots)[0] for h in tail]
+    ordered = first + [h for h, f in zip(tail, flags) if f] + [h for h, f in zip(tail, flags) if not f]
+    tried = []
+    for h in ordered[:SEARCH_MAX]:
+        if h in tried:
+            continue
+        tried.append(h)
         rx["recheck_executions"] += 2
         for sg in _pristine_run(w, ci, [h, case]) & need:
             found.setdefault(sg, h)
@@ -984,24 +1113,66 @@ def resolve_history(w, st, ci, case, viols, history, budget):
             break
     missing = need - set(found)
     if missing and len(history) > 1:
-        # no single earlier call suffices: the whole history of this lookup
+        # no single earlier call suffices: the whole history of this process, then reduced (delta debugging)
         rx["recheck_executions"] += len(history) + 1
-        for sg in _pristine_run(w, ci, list(history) + [case]) & missing:
-            found[sg] = list(history)
+        hit = _pristine_run(w, ci, list(history) + [case]) & missing
+        if hit:
+            target = sorted(hit)[0]
+            small = _ddmin(list(history), lambda sub: target in _pristine_run(w, ci, sub + [case]), rx)
+            again = _pristine_run(w, ci, small + [case])
+            for sg in hit:
+                found[sg] = small if sg in again else list(history)
     for v in dep:
         h = found.get(v[0])
         if h is None:
             rx.setdefault("harness_errors", []).append(
-                "case %r failed (%s) in the worker but neither alone, after one earlier call, nor after the whole history of its lookup on a pristine tree" % (case, v[0]))
+                "case %r failed (%s) in its chunk but neither alone, after one earlier call, nor after the whole history of the chunk in a fresh process" % (case, v[0]))
             continue
         if isinstance(h, list):
             pre = [dict(x, chain=CHAIN) for x in h]
-            sig = base_of(v[0]) + " | after a history of earlier calls on the same lookup"
+            sig = base_of(v[0]) + " | after several earlier calls in the same process"
         else:
             pre = [dict(h, chain=CHAIN)]
             sig = base_of(v[0]) + prelude_footprint(w, ci, h)
         out.append((dict(case, chain=CHAIN, prelude=pre), sig, v[1], v[2], v[3]))
     return out
+
+
+def _ddmin(seq, test, rx, max_tests=120):
+    """a smaller sub-sequence of seq that still makes test() true"""
+    n = 2
+    tests = 0
+    while len(seq) >= 2 and tests < max_tests:
+        size = -(-len(seq) // n)
+        reduced = False
+        for i in range(0, len(seq), size):
+            cand = seq[:i] + seq[i + size:]
+            tests += 1
+            rx["recheck_executions"] = rx.get("recheck_executions", 0) + len(cand) + 1
+            if cand and test(cand):
+                seq = cand
+                n = max(n - 1, 2)
+                reduced = True
+                break
+            if tests >= max_tests:
+                break
+        if not reduced:
+            if n >= len(seq):
+                break
+            n = min(len(seq), n * 2)
+    return seq
+
+
+def _account(st, form, obs, label="cases_"):
+    st.evaluations += 1
+    st.transitions += 1 + obs["nrecs"]
+    st.oracles["filename"] += obs["nrecs"]
+    st.oracles["audit+markers"] += 1
+    st.oracles["reference"] += 1
+    if obs["kind"].startswith("exc:"):
+        d = st.extra.setdefault("other_exceptions", {})
+        k = "%s %s" % (form, obs["kind"])
+        d[k] = d.get(k, 0) + 1
 
 
 def _run_job(job, st):
@@ -1018,17 +1189,23 @@ def _run_job(job, st):
             continue
         seen.add(uri_t)
         by_n.setdefault((n, fam), []).append(uri_t)
+    for uri_t, n in gen_uni(tier, seed, sh, ns):
+        seen.add(uri_t)
+        by_n.setdefault((n, "uni"), []).append(uri_t)
     st.extra["distinct_uris"] = len(seen)
     budget = {}
+    nchunk = 0
     for n, fam in sorted(by_n):
         combos = cases_for(tier, n, fam)
         uris = by_n[(n, fam)]
         per_n["%d%s" % (n, fam)] = len(uris)
         for ci_group in _group_by_cfg(combos):
-            for i in range(0, len(uris), CHUNK):
-                chunk = uris[i:i + CHUNK]
-                _run_chunk(w, st, vi, seed, ci_group, chunk, budget)
+            for i in range(0, len(uris), CHUNK[tier]):
+                chunk = uris[i:i + CHUNK[tier]]
+                _run_chunk(w, st, vi, seed, ci_group, chunk, budget, nchunk % 25 == 0)
+                nchunk += 1
     st.extra["uris_by_segments"] = per_n
+    st.extra["child_processes"] = st.extra.get("child_processes", 0) + nchunk
     vi.flush(st)
     return st
 
@@ -1040,21 +1217,23 @@ def _group_by_cfg(combos):
     return [groups[k] for k in sorted(groups)]
 
 
-def _run_chunk(w, st, vi, seed, combos, chunk, budget, percase=False):
-    """all cases (combos x chunk) of one configuration.  One lookup per (form,
-    depth) serves the whole chunk (a deliberate long history); a failure is then
-    re-executed on fresh lookups (resolve_history).  Oracle 5 at the end (per
-    case when percase: used to attribute a snapshot difference)"""
+def _chunk_child(w, seed, combos, chunk, percase, sample):
+    """(in a child) all cases (combos x chunk) of one configuration.  One lookup
+    per (form, depth) serves the whole chunk, the module_directory starts
+    empty: a deliberate long history.  Oracle 5 at the end (after every case
+    when percase: used to attribute a snapshot difference)."""
     ci = combos[0][0]
     cfg = CONFIGS[ci]
+    if percase:
+        w.rebuild()
     w.reset_cells()
     w.clear_mods()
-    local = []
-    for combo in combos:
-        _, form, depth = combo
-        for idx, uri_t in enumerate(chunk):
+    st = Stats()
+    fails = []
+    pos = 0
+    for _, form, depth in combos:
+        for uri_t in chunk:
             obs, viols = run_case(w, ci, form, depth, uri_t)
-            case = mkcase(cfg, form, depth, uri_t, seed)
             if percase:
                 d = diff_snapshot(w, cfg)
                 if d is not None:
@@ -1062,43 +1241,49 @@ def _run_chunk(w, st, vi, seed, combos, chunk, budget, percase=False):
                                   "5 the tree outside module_directory is unchanged", "unchanged tree", d[1]))
                     w.rebuild()
                     w.mods0 = []
-            local.append((case, obs, viols, idx))
+            _account(st, form, obs)
+            st.states += 1
+            st.traces += 1
+            if obs["nontrivial"]:
+                st.nontrivial += 1
+            st.outcomes[(obs["ref"], obs["kind"])] += 1
+            fk = "cases_" + FORM_NAMES[form]
+            st.extra[fk] = st.extra.get(fk, 0) + 1
+            if viols:
+                fails.append((pos, viols))
+            if sample and pos == (len(chunk) // 2):
+                st.sample({"case": mkcase(cfg, form, depth, uri_t, seed), "ref": obs["ref"], "outcome": obs["kind"]})
+            pos += 1
     if not percase:
         d = diff_snapshot(w, cfg)
         if d is not None:
-            # attribute: rebuild and re-run this chunk with a snapshot after every case
-            w.rebuild()
-            before = _snap_count(st)
-            _run_chunk(w, st, vi, seed, combos, chunk, budget, percase=True)
-            if _snap_count(st) == before:
-                st.extra.setdefault("harness_errors", []).append(
-                    "snapshot difference %r after a chunk could not be attributed to a case" % (d,))
-            return
-    for pos, (case, obs, viols, idx) in enumerate(local):
-        st.evaluations += 1
-        st.states += 1
-        st.traces += 1
-        st.transitions += 1 + obs["nrecs"]
-        if obs["nontrivial"]:
-            st.nontrivial += 1
-        st.outcomes[(obs["ref"], obs["kind"])] += 1
-        st.oracles["filename"] += obs["nrecs"]
-        st.oracles["audit+markers"] += 1
-        st.oracles["reference"] += 1
-        fk = "cases_" + FORM_NAMES[case["form"]]
-        st.extra[fk] = st.extra.get(fk, 0) + 1
-        if obs["kind"].startswith("exc:"):
-            st.extra.setdefault("other_exceptions", {})
-            k = "%s %s" % (case["form"], obs["kind"])
-            st.extra["other_exceptions"][k] = st.extra["other_exceptions"].get(k, 0) + 1
-        if viols:
-            # everything this chunk ran before on this tree (module files outlive the per-form lookups)
-            history = [x[0] for x in local[:pos]]
-            for c2, sig, oracle, expected, observed in resolve_history(w, st, ci, case, viols, history, budget):
+            return ("snapdiff", d)
+        st.oracles["snapshot"] += 1
+    else:
+        st.oracles["snapshot"] += pos
+    return ("ok", st, fails)
+
+
+def _run_chunk(w, st, vi, seed, combos, chunk, budget, sample=False):
+    ci = combos[0][0]
+    cfg = CONFIGS[ci]
+    r = fork_call(_chunk_child, w, seed, combos, chunk, False, sample)
+    if r[0] == "snapdiff":
+        # attribute: rebuild and re-run this chunk (fresh child) with a snapshot after every case
+        d = r[1]
+        r = fork_call(_chunk_child, w, seed, combos, chunk, True, sample)
+        st.extra["child_processes"] = st.extra.get("child_processes", 0) + 1
+        if not any(_snap_sigs(v) for _, v in r[2]):
+            st.extra.setdefault("harness_errors", []).append(
+                "snapshot difference %r after a chunk could not be attributed to a case" % (d,))
+    _, cst, fails = r
+    st.merge(cst)
+    if fails:
+        order = [mkcase(cfg, f, dp, u, seed, "%s%d" % (f, dp)) for _, f, dp in combos for u in chunk]
+        for pos, viols in fails:
+            # everything this chunk's process ran before (process-wide state, module files and the per-form lookups)
+            for c2, sig, oracle, expected, observed in resolve_history(w, st, ci, order[pos], viols, order[:pos], budget):
                 vi.add(sig, c2, oracle, expected, observed)
-        if st.evaluations % 9973 == 1:
-            st.sample({"case": case, "ref": obs["ref"], "outcome": obs["kind"]})
-    st.oracles["snapshot"] += 1 if not percase else len(local)
 
 
 # --------------------------------------------------------------------------
@@ -1117,6 +1302,20 @@ def clamp_form(uri):
     return tuple(stk)
 
 
+_NONWORD = re.compile(r"\W")
+
+
+def sanitised(uri):
+    return _NONWORD.sub("_", uri)
+
+
+def effective_uri(form, depth, uri, D):
+    """the URI a form hands to the lookup: tags resolve a relative URI against the caller's directory"""
+    if form in ("G", "H") or uri[:1] == "/":
+        return uri
+    return "/" + (D + "/") * depth + uri
+
+
 def pair_universe(seed, n, spellings):
     S = segments(seed)
     out = []
@@ -1131,8 +1330,28 @@ def pair_universe(seed, n, spellings):
     return out
 
 
+def alias_universe(seed, n, mix_n):
+    S = segments(seed) + ALIAS_EXTRA
+    seen = set()
+    out = []
+    for k in range(1, n + 1):
+        seps = list(_patterns(k))
+        if 1 < k <= mix_n:
+            seps = list(dict.fromkeys(seps + list(itertools.product(MIX_SEPS, repeat=k - 1))))
+        for segs in itertools.product(S, repeat=k):
+            for sp in seps:
+                body = _join(segs, sp)
+                for pre in PREFIXES:
+                    u = pre + body
+                    if u not in seen:
+                        seen.add(u)
+                        out.append(u)
+    return out
+
+
 def gen_pairs(tier, seed, w, shard, nshards):
-    """yield (ci, form, u1, u2) - each once - for this shard (sharded on u1)"""
+    """yield (ci, form, u1, u2) - each once - for this shard (sharded on u1):
+    u1 resolves outside and is fetched by get_template, u2 goes through the form"""
     cache = {}
 
     def uni(n, sp):
@@ -1178,12 +1397,43 @@ def gen_pairs(tier, seed, w, shard, nshards):
                         yield k
 
 
-def run_history(w, ci, steps):
-    """steps: [(form, depth, uri)] issued in order on ONE fresh lookup"""
-    if CONFIGS[ci]["mods"]:
-        w.clear_mods()
-    lk = w.new_lookup(ci)
-    return [run_case(w, ci, f, d, u, lk=lk) for f, d, u in steps]
+def gen_alias_pairs(tier, seed, w, shard, nshards):
+    """yield (ci, form, t, h) - each once - for this shard (sharded on t): t resolves
+    outside onto an existing file and goes through the form, h does not resolve
+    outside, is fetched by get_template and has the same sanitised spelling"""
+    emitted = set()
+    cache = {}
+    D = w.nm["D"]
+    for forms, cfgs, n, mix_n in ALIAS_PLANS[tier]:
+        if (n, mix_n) not in cache:
+            U = alias_universe(seed, n, mix_n)
+            idx = {}
+            for u in U:
+                idx.setdefault(sanitised(u), []).append(u)
+            cache[(n, mix_n)] = (U, idx)
+        U, idx = cache[(n, mix_n)]
+        for ci in cfgs:
+            roots = w.rootnames(CONFIGS[ci])
+            harmless = {}
+            for t in U:
+                if zlib.crc32(t.encode()) % nshards != shard:
+                    continue
+                for f in forms:
+                    must, _, _, finals = ref_class(t, f, 0, D, roots)
+                    if not must or not any(x is not None and "/".join(x) in w.files for x in finals):
+                        continue
+                    for h in idx.get(sanitised(effective_uri(f, 0, t, D)), ()):
+                        if h == t:
+                            continue
+                        ok = harmless.get(h)
+                        if ok is None:
+                            ok = harmless[h] = not ref_class(h, "G", 0, D, roots)[0]
+                        if not ok:
+                            continue
+                        k = (ci, f, t, h)
+                        if k not in emitted:
+                            emitted.add(k)
+                            yield k
 
 
 PAIR_BATCH = 150
@@ -1196,73 +1446,99 @@ def _run_pairs_job(job, st):
     vi = _Viols()
     budget = {}
     groups = {}
+    # a history is [(form, uri), (form, uri)]: both orders of every pair
     for ci, f, u1, u2 in gen_pairs(tier, seed, w, job["shard"], job["nshards"]):
-        groups.setdefault(ci, []).append((f, u1, u2))
+        g = groups.setdefault(ci, [])
+        g.append(("outside-first", [("G", u1), (f, u2)]))
+        g.append(("outside-second", [(f, u2), ("G", u1)]))
+    for ci, f, t, h in gen_alias_pairs(tier, seed, w, job["shard"], job["nshards"]):
+        g = groups.setdefault(ci, [])
+        g.append(("alias-first", [("G", h), (f, t)]))
+        g.append(("alias-second", [(f, t), ("G", h)]))
+    nb = 0
     for ci in sorted(groups):
         items = groups[ci]
-        for i in range(0, len(items), PAIR_BATCH):
-            _run_pair_batch(w, st, vi, seed, ci, items[i:i + PAIR_BATCH], budget)
+        for i in range(0, len(items), 2 * PAIR_BATCH):
+            _run_pair_batch(w, st, vi, seed, ci, items[i:i + 2 * PAIR_BATCH], budget, nb % 10 == 0)
+            nb += 1
+    st.extra["child_processes"] = st.extra.get("child_processes", 0) + nb
     vi.flush(st)
     return st
 
 
-def _run_pair_batch(w, st, vi, seed, ci, items, budget, perhist=False):
+def _pair_child(w, seed, ci, items, perhist, sample):
+    """(in a child) every history on a fresh lookup; the process and the module_directory (empty at the start
+    of the batch) are shared by the histories of the batch"""
     cfg = CONFIGS[ci]
+    if perhist:
+        w.rebuild()
     w.clear_mods()
-    local = []
-    for f, u1, u2 in items:
-        for order in ("outside-first", "outside-second"):
-            steps = [("G", 0, u1), (f, 0, u2)]
-            if order == "outside-second":
-                steps.reverse()
-            res = run_history(w, ci, steps)
-            if perhist:
+    st = Stats()
+    fails = []
+    pos = 0
+    for hi, (order, steps) in enumerate(items):
+        lk = w.new_lookup(ci)
+        res = []
+        for j, (f, u) in enumerate(steps):
+            obs, viols = run_case(w, ci, f, 0, u, lk=lk)
+            if perhist and j == len(steps) - 1:
                 d = diff_snapshot(w, cfg)
                 if d is not None:
-                    res[-1][1].append(("snapshot: %s roots=%s" % (d[0], cfg["roots"]),
-                                       "5 the tree outside module_directory is unchanged", "unchanged tree", d[1]))
+                    viols.append(("snapshot: %s roots=%s" % (d[0], cfg["roots"]),
+                                  "5 the tree outside module_directory is unchanged", "unchanged tree", d[1]))
                     w.rebuild()
                     w.mods0 = []
-            local.append((order, steps, res))
-    if not perhist:
-        d = diff_snapshot(w, cfg)
-        if d is not None:
-            w.rebuild()
-            before = _snap_count(st)
-            _run_pair_batch(w, st, vi, seed, ci, items, budget, perhist=True)
-            if _snap_count(st) == before:
-                st.extra.setdefault("harness_errors", []).append(
-                    "snapshot difference %r after a batch of two-call histories could not be attributed" % (d,))
-            return
-    for order, steps, res in local:
-        st.evaluations += 2
+            _account(st, f, obs)
+            if viols:
+                fails.append((pos, viols))
+            res.append(obs)
+            pos += 1
         st.states += 1
         st.traces += 1
         st.nontrivial += 1
-        st.transitions += 2 + res[0][0]["nrecs"] + res[1][0]["nrecs"]
-        st.oracles["filename"] += res[0][0]["nrecs"] + res[1][0]["nrecs"]
-        st.oracles["audit+markers"] += 2
-        st.oracles["reference"] += 2
-        st.outcomes[("two calls", order, res[0][0]["ref"] + ":" + res[0][0]["kind"].split(":")[0],
-                     res[1][0]["ref"] + ":" + res[1][0]["kind"].split(":")[0])] += 1
-        fk = "histories_" + FORM_NAMES[steps[0][0] if order == "outside-second" else steps[1][0]]
+        st.outcomes[("two calls", order, res[0]["ref"] + ":" + res[0]["kind"].split(":")[0],
+                     res[1]["ref"] + ":" + res[1]["kind"].split(":")[0])] += 1
+        form = [f for f, _ in steps if f != "G"] or ["G"]
+        fk = "histories_%s_%s" % ("alias" if order.startswith("alias") else "outside", FORM_NAMES[form[0]])
         st.extra[fk] = st.extra.get(fk, 0) + 1
-        cases = [mkcase(cfg, f, d, u, seed) for f, d, u in steps]
-        for i, (obs, viols) in enumerate(res):
-            if viols:
-                for c2, sig, oracle, expected, observed in resolve_history(w, st, ci, cases[i], viols, cases[:i], budget):
-                    vi.add(sig, c2, oracle, expected, observed)
-        if st.states % 4999 == 1:
-            st.sample({"history": cases, "outcomes": [r[0]["kind"] for r in res]})
-    st.oracles["snapshot"] += 1 if not perhist else len(local)
+        if sample and hi == len(items) // 2:
+            st.sample({"history": [mkcase(cfg, f, 0, u, seed) for f, u in steps], "outcomes": [o["kind"] for o in res]})
+    if not perhist:
+        d = diff_snapshot(w, cfg)
+        if d is not None:
+            return ("snapdiff", d)
+        st.oracles["snapshot"] += 1
+    else:
+        st.oracles["snapshot"] += len(items)
+    return ("ok", st, fails)
+
+
+def _run_pair_batch(w, st, vi, seed, ci, items, budget, sample=False):
+    cfg = CONFIGS[ci]
+    r = fork_call(_pair_child, w, seed, ci, items, False, sample)
+    if r[0] == "snapdiff":
+        d = r[1]
+        r = fork_call(_pair_child, w, seed, ci, items, True, sample)
+        st.extra["child_processes"] = st.extra.get("child_processes", 0) + 1
+        if not any(_snap_sigs(v) for _, v in r[2]):
+            st.extra.setdefault("harness_errors", []).append(
+                "snapshot difference %r after a batch of two-call histories could not be attributed" % (d,))
+    _, cst, fails = r
+    st.merge(cst)
+    if fails:
+        order = [mkcase(cfg, f, 0, u, seed, "h%d" % hi) for hi, (_, steps) in enumerate(items) for f, u in steps]
+        for pos, viols in fails:
+            for c2, sig, oracle, expected, observed in resolve_history(w, st, ci, order[pos], viols, order[:pos], budget):
+                vi.add(sig, c2, oracle, expected, observed)
 
 
 # --------------------------------------------------------------------------
-# replay.  A plain case runs on a fresh tree and a fresh lookup.  A case with
-# `prelude` runs its prelude cases and then itself on ONE lookup.  Cases marked
-# with the CHAIN key and replayed one after the other in the same interpreter
-# (core.isolated_replay: prelude cases, then the case) share one tree and one
-# lookup per configuration - that is how an order-dependent violation replays.
+# replay.  A plain case runs in a child process on a fresh tree and a fresh
+# lookup.  A case with `prelude` runs its prelude cases and then itself in one
+# child on ONE lookup.  Cases marked with the CHAIN key and replayed one after
+# the other in the same interpreter (core.isolated_replay: prelude cases, then
+# the case) share the process, one tree and one lookup per configuration -
+# that is how an order-dependent violation replays.
 
 _CHAIN_CTX = {}
 _ATEXIT = []
@@ -1281,9 +1557,10 @@ class _Ctx:
     def step(self, case):
         w = self.w
         ci = cfg_id(case["cfg"]["roots"], case["cfg"]["mods"])
-        lk = self.lookups.get(ci)
+        key = (ci, case.get("lk"))
+        lk = self.lookups.get(key)
         if lk is None:
-            lk = self.lookups[ci] = w.new_lookup(ci)
+            lk = self.lookups[key] = w.new_lookup(ci)
         obs, viols = run_case(w, ci, case["form"], case["depth"], case["uri"], lk=lk)
         d = diff_snapshot(w, CONFIGS[ci])
         if d is not None:
@@ -1292,6 +1569,18 @@ class _Ctx:
         text = "%s(%r) depth=%d cfg=%r -> ref=%s outcome=%s" % (
             FORM_NAMES[case["form"]], concrete(case["uri"], w.T), case["depth"], case["cfg"], obs["ref"], obs["kind"])
         return viols, text
+
+    def run(self, steps):
+        os.chdir(self.w.T)
+        texts = []
+        viols = []
+        for c in steps:
+            viols, t = self.step(c)
+            texts.append(t)
+        text = " ; then ".join(texts)
+        if viols:
+            return False, "reproduced: " + text + " :: " + "; ".join("%s %r" % (v[0], v[3]) for v in viols)
+        return True, "holds: " + text
 
 
 def replay(case):
@@ -1305,19 +1594,9 @@ def replay(case):
             ctx = _CHAIN_CTX.get(key)
             if ctx is None:
                 ctx = _CHAIN_CTX[key] = _Ctx(seed)
-        else:
-            ctx = _Ctx(seed)
-        os.chdir(ctx.w.T)
-        texts = []
-        for h in prelude or []:
-            _, t = ctx.step(h)
-            texts.append(t)
-        viols, t = ctx.step(case)
-        texts.append(t)
-        text = " ; then ".join(texts)
-        if viols:
-            return False, "reproduced: " + text + " :: " + "; ".join("%s %r" % (v[0], v[3]) for v in viols)
-        return True, "holds: " + text
+            return ctx.run([case])
+        ctx = _Ctx(seed)
+        return tuple(fork_call(ctx.run, list(prelude or []) + [case]))
     finally:
         os.chdir(cwd)
 
